@@ -50,6 +50,9 @@ type backend struct {
 	applied  int               // falsified answers served
 	declined int               // answers of `method` to which the falsification did not apply
 	wire     map[string][]byte // canonical JSON of the last answer served, per method
+	// cutoff != 0: as a light provider the node claims that `cutoff` is its latest height: signed headers and
+	// validator sets above it are "not there yet" (rpc/core's own too-high error).  Its other answers are unaffected.
+	cutoff int64
 }
 
 func newBackend(cc *chainCtx, name string) *backend {
@@ -138,7 +141,25 @@ func (b *backend) BlockResults(ctx context.Context, height *int64) (*ctypes.Resu
 	return out, b.serve("BlockResults", res, out)
 }
 
+func (b *backend) withheld(height *int64) (*int64, error) {
+	if b.cutoff == 0 {
+		return height, nil
+	}
+	if height == nil {
+		h := b.cutoff
+		return &h, nil
+	}
+	if *height > b.cutoff {
+		return nil, fmt.Errorf("height %d must be less than or equal to the current blockchain height %d", *height, b.cutoff)
+	}
+	return height, nil
+}
+
 func (b *backend) Commit(ctx context.Context, height *int64) (*ctypes.ResultCommit, error) {
+	height, werr := b.withheld(height)
+	if werr != nil {
+		return nil, werr
+	}
 	res, err := rpccore.Commit(rctx, height)
 	if err != nil {
 		return nil, err
@@ -151,6 +172,10 @@ func (b *backend) Commit(ctx context.Context, height *int64) (*ctypes.ResultComm
 }
 
 func (b *backend) Validators(ctx context.Context, height *int64, page, perPage *int) (*ctypes.ResultValidators, error) {
+	height, werr := b.withheld(height)
+	if werr != nil {
+		return nil, werr
+	}
 	res, err := rpccore.Validators(rctx, height, page, perPage)
 	if err != nil {
 		return nil, err
